@@ -111,6 +111,7 @@ func runCrash(seed int64, n int, out *bufio.Writer, thorough bool) *crashStats {
 			reps = append(reps, &rep{log: l, writer: wr})
 		}
 		var rets []returned
+		held := map[string]iface.IPFSLogEntry{} // the entry objects Append returned, by hash
 		shape := ""
 		nOps := 12 + r.Intn(20)
 		payloads := []string{"x", "y", "z", ""} // the empty payload is a legal entry
@@ -124,7 +125,7 @@ func runCrash(seed int64, n int, out *bufio.Writer, thorough bool) *crashStats {
 					pl = fmt.Sprintf("p%d", k)
 				}
 				pc := []int{0, 1, 2, 4, 8}[r.Intn(5)]
-				e, err := l.Append(ctx, []byte(pl), &iface.AppendOptions{PointerCount: pc})
+				e, err := l.Append(ctx, []byte(pl), &iface.AppendOptions{PointerCount: pc, Pin: r.Intn(3) == 0})
 				shape += fmt.Sprintf("A%d.%s;", i, pl)
 				if err != nil {
 					st.DeniedAppends++
@@ -132,6 +133,7 @@ func runCrash(seed int64, n int, out *bufio.Writer, thorough bool) *crashStats {
 					continue
 				}
 				st.Appends++
+				held[e.GetHash().String()] = e
 				mu.Lock()
 				at := len(events)
 				mu.Unlock()
@@ -237,6 +239,8 @@ func runCrash(seed int64, n int, out *bufio.Writer, thorough bool) *crashStats {
 					}
 				}
 				res, ents, heads := "ok", []string{}, []string{}
+				var fieldDiffs []string
+				joinRes := "ok"
 				func() {
 					defer func() {
 						if rec := recover(); rec != nil {
@@ -257,9 +261,40 @@ func runCrash(seed int64, n int, out *bufio.Writer, thorough bool) *crashStats {
 					}
 					ents = als(nl.GetEntries().Slice())
 					heads = als(nl.RawHeads().Slice())
+					// "loads to exactly the state": every loaded entry equals, field by field, the entry
+					// Append returned under that hash, and the loaded log can be merged by a peer
+					for _, le := range nl.GetEntries().Slice() {
+						he, ok := held[le.GetHash().String()]
+						if !ok {
+							continue
+						}
+						switch {
+						case string(le.GetSig()) != string(he.GetSig()):
+							fieldDiffs = append(fieldDiffs, al(le.GetHash())+":sig")
+						case string(le.GetKey()) != string(he.GetKey()):
+							fieldDiffs = append(fieldDiffs, al(le.GetHash())+":key")
+						case string(le.GetPayload()) != string(he.GetPayload()):
+							fieldDiffs = append(fieldDiffs, al(le.GetHash())+":payload")
+						case le.GetLogID() != he.GetLogID() || le.GetV() != he.GetV():
+							fieldDiffs = append(fieldDiffs, al(le.GetHash())+":id/v")
+						case le.GetClock().GetTime() != he.GetClock().GetTime() || string(le.GetClock().GetID()) != string(he.GetClock().GetID()):
+							fieldDiffs = append(fieldDiffs, al(le.GetHash())+":clock")
+						case !sameCidList(le.GetNext(), he.GetNext()) || !sameCidList(le.GetRefs(), he.GetRefs()):
+							fieldDiffs = append(fieldDiffs, al(le.GetHash())+":links")
+						}
+					}
+					peer, perr := ipfslog.NewLog(snap, ids.Identity("peer"), &ipfslog.LogOptions{ID: nl.ID})
+					if perr == nil {
+						if _, jerr := peer.Join(nl, -1); jerr != nil {
+							joinRes = "err"
+						}
+					}
 				}()
 				st.Loads++
 				fmt.Fprintf(out, "L %s %s %d %s %s %s\n", rt.kind, al(rt.c), upto, res, lst(ents), lst(heads))
+				if res == "ok" {
+					fmt.Fprintf(out, "LF %s %s %s\n", al(rt.c), lst(fieldDiffs), joinRes)
+				}
 			}
 		}
 		st.Cases++
